@@ -155,9 +155,36 @@ class Recorder:
         return False
 
 
+# label REPRESENTATIONS: what getall_class hands to kappadata.utils.getall_as_tensor
+INT_RANGE = {"int64": (-2 ** 63, 2 ** 63 - 1), "int32": (-2 ** 31, 2 ** 31 - 1), "int16": (-2 ** 15, 2 ** 15 - 1),
+             "int8": (-128, 127), "uint8": (0, 255)}
+REPS = ["list"] + ["%s:%s" % (f, d) for f in ("ndarray", "tensor") for d in ("int64", "int32", "int16", "int8", "uint8")]
+
+
+def rep_fits(classes, rep):
+    if rep == "list":
+        return True
+    lo, hi = INT_RANGE[rep.split(":")[1]]
+    return all(lo <= c <= hi for c in classes)
+
+
+def labels_in_rep(classes, rep):
+    if rep == "list":
+        return [int(c) for c in classes]
+    form, dt = rep.split(":")
+    if form == "ndarray":
+        import numpy as np
+        return np.asarray([int(c) for c in classes], dtype=dt)
+    import torch
+    return torch.tensor([int(c) for c in classes], dtype=getattr(torch, dt))
+
+
 class ClassDataset:
-    def __init__(self, classes, dim):
-        self.classes, self.dim = list(classes), dim
+    """labels live in a python list (the truth the oracles read); getall_class hands them out in the representation
+    `rep` (list / numpy array / torch tensor of a given integer dtype), a fresh object per call"""
+
+    def __init__(self, classes, dim, rep="list"):
+        self.classes, self.dim, self.rep = [int(c) for c in classes], dim, rep
 
     def __len__(self):
         return len(self.classes)
@@ -166,14 +193,51 @@ class ClassDataset:
         return self.dim
 
     def getall_class(self):
-        return list(self.classes)
+        return labels_in_rep(self.classes, self.rep)
+
+    def getitem_class(self, idx, ctx=None):
+        return self.classes[idx]
+
+    def relabel(self, classes):
+        """the labels change IN PLACE (same object, same list object; the length may change)"""
+        self.classes[:] = [int(c) for c in classes]
 
     def __getitem__(self, idx):
         return int(idx)
 
 
-def build(case, rank, world, seed=None, generator=None):
-    """construct the real sampler of the case for one rank"""
+class ItemDataset:
+    """a dataset WITHOUT getall_class: labels are reachable sample by sample only (kappadata.utils.getall's slow path)"""
+
+    def __init__(self, classes, dim):
+        self.classes, self.dim = [int(c) for c in classes], dim
+
+    def __len__(self):
+        return len(self.classes)
+
+    def getdim_class(self):
+        return self.dim
+
+    def getitem_class(self, idx, ctx=None):
+        return self.classes[idx]
+
+    def relabel(self, classes):
+        self.classes[:] = [int(c) for c in classes]
+
+    def __getitem__(self, idx):
+        return int(idx)
+
+
+def make_dataset(case, classes=None):
+    """the dataset object of a cb / semi case: case["rep"] (default "list"), case["getall"] (default True)"""
+    classes = case["classes"] if classes is None else classes
+    if not case.get("getall", True):
+        return ItemDataset(classes, case["dim"])
+    return ClassDataset(classes, case["dim"], case.get("rep", "list"))
+
+
+def build(case, rank, world, seed=None, generator=None, dataset=None):
+    """construct the real sampler of the case for one rank (dataset: an existing dataset object to build it on)"""
     import torch
     kind = case["kind"]
     seed = case["seed"] if seed is None else seed
@@ -191,11 +255,12 @@ def build(case, rank, world, seed=None, generator=None):
                                size=case["size"], seed=seed, rank=rank, world_size=world)
     if kind == "cb":
         from kappadata.samplers.class_balanced_sampler import ClassBalancedSampler
-        return ClassBalancedSampler(ClassDataset(case["classes"], case["dim"]), shuffle=case["shuffle"],
+        return ClassBalancedSampler(dataset if dataset is not None else make_dataset(case), shuffle=case["shuffle"],
                                     samples_per_class=case["spc"], seed=seed, rank=rank, world_size=world)
     if kind == "semi":
         from kappadata.samplers.semi_sampler import SemiSampler
-        return SemiSampler(ClassDataset(case["classes"], case["dim"]), num_labeled=case["L"], num_unlabeled=case["U"],
+        return SemiSampler(dataset if dataset is not None else make_dataset(case), num_labeled=case["L"],
+                           num_unlabeled=case["U"],
                            rank=rank, world_size=world, seed=seed, length_mode=case["mode"])
     raise ValueError(kind)
 
@@ -285,7 +350,7 @@ def run_ops_guarded(case, rank, world, ops):
     return out
 
 
-def run_rank(case, rank, world, epoch=None, seed=None):
+def run_rank(case, rank, world, epoch=None, seed=None, dataset=None):
     """-> dict(result, stream, len, seeds, draws=[[request, result]], gens, alien, random_)"""
     import torch
     epoch = case["epoch"] if epoch is None else epoch
@@ -296,7 +361,7 @@ def run_rank(case, rank, world, epoch=None, seed=None):
     rec = Recorder()
     with rec:
         try:
-            s = build(case, rank, world, seed=seed, generator=gen)
+            s = build(case, rank, world, seed=seed, generator=gen, dataset=dataset)
             if epoch is not None and hasattr(s, "set_epoch"):
                 s.set_epoch(epoch)
             out["len"] = int(len(s))
@@ -313,6 +378,88 @@ def run_rank(case, rank, world, epoch=None, seed=None):
         except Exception as e:  # noqa
             out["result"] = type(e).__name__ + ": " + str(e)[:200]
     return digest_log(out, rec.log)
+
+
+def same_run(a, b):
+    return (a["result"] == b["result"] and a["len"] == b["len"] and a["stream"] == b["stream"]
+            and a["seeds"] == b["seeds"] and a["draws"] == b["draws"]
+            and [v for _, v in a["random_"]] == [v for _, v in b["random_"]])
+
+
+def run_relabel(case, W):
+    """CONSTRUCTION HISTORY on one dataset object: the dataset holds the labels case["relabel"]["before"]; sampler A
+    (case["relabel"]["A"]: "cb" / "semi" with default arguments, "getall" = kappadata.utils.getall_as_tensor alone) is
+    built on it and iterated; the labels change in place to case["classes"]; the case's sampler is then built on the SAME
+    object for every rank -> {"A": result of A, "ranks": [record per rank]}"""
+    import itertools
+    rl = case["relabel"]
+    ds = make_dataset(case, classes=rl["before"])
+    a_res = "ok"
+    try:
+        if rl["A"] == "cb":
+            from kappadata.samplers.class_balanced_sampler import ClassBalancedSampler
+            a = ClassBalancedSampler(ds, seed=case["seed"])
+        elif rl["A"] == "semi":
+            from kappadata.samplers.semi_sampler import SemiSampler
+            a = SemiSampler(ds, seed=case["seed"])
+        else:
+            from kappadata.utils.getall_as_tensor import getall_as_tensor
+            getall_as_tensor(ds, item="class")
+            a = []
+        a_res = "ok:%d" % len(list(itertools.islice(iter(a), 20000)))
+    except AssertionError:
+        a_res = "AssertionError"
+    except Runaway:
+        raise
+    except Exception as e:  # noqa
+        a_res = type(e).__name__
+    ds.relabel(case["classes"])
+    return {"A": a_res, "ranks": [run_rank(case, r, W, dataset=ds) for r in range(W)]}
+
+
+def run_relabel_guarded(case, W):
+    out, ran_away = guarded(run_relabel, case, W)
+    return {"A": "RUNAWAY", "ranks": [dict(RUNAWAY_RANK)]} if ran_away else out
+
+
+def oracle_relabel(case, obs):
+    """the sampler built on the relabelled object shows what the sampler built on a pristine dataset holding the current
+    labels shows (obs["ranks"])"""
+    rl, got = case["relabel"], obs["relabel"]
+    what = ("dataset object %s getall_class held the labels %s; %s was applied to it (%s); the labels were "
+            "changed in place to %s; the sampler then built on the same object"
+            % ("with" if case.get("getall", True) else "WITHOUT", rl["before"],
+               {"cb": "a ClassBalancedSampler", "semi": "a SemiSampler", "getall": "getall_as_tensor"}[rl["A"]], got["A"],
+               case["classes"]))
+    if got["A"] == "RUNAWAY" or len(got["ranks"]) != len(obs["ranks"]):
+        return what + " does not return"
+    for r, (b, ref) in enumerate(zip(got["ranks"], obs["ranks"])):
+        if not same_run(b, ref):
+            return ("%s (rank %d) shows len %s, stream %s (%s), draws of sizes %s; the sampler built on a pristine dataset "
+                    "with the CURRENT labels shows len %s, stream %s (%s), draws of sizes %s"
+                    % (what, r, b["len"], b["stream"], b["result"], [d[0] for d in b["draws"]], ref["len"], ref["stream"],
+                       ref["result"], [d[0] for d in ref["draws"]]))
+    return None
+
+
+def gen_before(rng, classes, pool):
+    """labels the dataset object held BEFORE it was relabelled to `classes` (different from classes)"""
+    n = len(classes)
+    for _ in range(20):
+        q = rng.random()
+        before = list(classes)
+        if q < 0.25:
+            rng.shuffle(before)
+        elif q < 0.65:      # some entries differed (pseudo-labelling: -1 before, a label now; label cleaning)
+            for i in rng.sample(range(n), rng.randint(1, max(1, n // 3))):
+                before[i] = rng.choice(pool)
+        elif q < 0.8:       # the dataset was longer
+            before += [rng.choice(pool) for _ in range(rng.randint(1, 4))]
+        else:               # ... or shorter
+            before = before[:max(1, n - rng.randint(1, 3))]
+        if before != list(classes):
+            return before
+    return list(classes) + [pool[0]]
 
 
 def interleave(streams):
